@@ -458,18 +458,17 @@ def call_py(ex, obj, name, node, st):
     if obj is builtins.int:
         args, kw = ex.eval_args(node, st)
         a = args[0]
-        base = 10
         b = args[1] if len(args) > 1 else kw.get("base")
-        if b is not None:
-            if not is_int_const(b.z):
-                # conditional base (16 if .. else 10): split on the condition
-                raise Unsupported("symbolic int() base")
-            base = int_const(b.z)
         if isinstance(a, VInt):
             return a
-        if isinstance(a, (VBytes, VStr)):
-            ex.assumed.add("int(text, base): raises ValueError iff text is not in the literal language ws sign? (0x)? digits(_digits)* ws; the value is the number denoted")
-            ex.raise_if(st, z3.Not(z3.InRe(a.z, int_lang(base))), "ValueError", f"int(text, {base})")
+        if isinstance(a, VOpt):
+            raise Unsupported("int(None?)")
+        if not isinstance(a, (VBytes, VStr)):
+            raise Unsupported(f"int({a})")
+        ex.assumed.add("int(text, base): raises ValueError iff text is not in the literal language ws sign? (0x)? digits(_digits)* ws; the value is the number denoted")
+
+        def int_text(base):
+            """-> (not-a-literal condition, value): INTVAL<base> is a function of the text; its facts hold whatever base is finally used"""
             f = uf(ex, f"INTVAL{base}", S, I)
             r = f(a.z)
             # value facts: non-negative when no sign can occur; bounded by the digit count
@@ -486,10 +485,22 @@ def call_py(ex, obj, name, node, st):
                 hexd = z3.Union(z3.Range("0", "9"), z3.Range("a", "f"), z3.Range("A", "F"))
                 st.fact(z3.Implies(z3.InRe(a.z, z3.Loop(hexd, 1, 2)), z3.And(r >= 0, r <= 255)))
                 st.fact(z3.Implies(z3.InRe(a.z, z3.Concat(z3.Re("0"), z3.Union(z3.Re("x"), z3.Re("X")), z3.Loop(hexd, 1, 2))), z3.And(r >= 0, r <= 255)))
+            return z3.Not(z3.InRe(a.z, int_lang(base))), r
+
+        if b is None or is_int_const(b.z):
+            base = 10 if b is None else int_const(b.z)
+            bad, r = int_text(base)
+            ex.raise_if(st, bad, "ValueError", f"int(text, {base})")
             return VInt(r)
-        if isinstance(a, VOpt):
-            raise Unsupported("int(None?)")
-        raise Unsupported(f"int({a})")
+        bz = z3.simplify(b.z)
+        if z3.is_app_of(bz, z3.Z3_OP_ITE) and is_int_const(bz.arg(1)) and is_int_const(bz.arg(2)):
+            # a conditional base (16 if .. else 10): both readings, selected by the condition
+            c_ = bz.arg(0)
+            bad1, r1 = int_text(int_const(bz.arg(1)))
+            bad2, r2 = int_text(int_const(bz.arg(2)))
+            ex.raise_if(st, z3.If(c_, bad1, bad2), "ValueError", f"int(text, {int_const(bz.arg(1))} or {int_const(bz.arg(2))})")
+            return VInt(z3.If(c_, r1, r2))
+        raise Unsupported("symbolic int() base")
     if obj is builtins.chr:
         (a,), _ = ex.eval_args(node, st)
         ex.raise_if(st, z3.Or(a.z < 0, a.z > 0x10FFFF), "ValueError", "chr() arg not in range(0x110000)")
